@@ -40,6 +40,11 @@ def cases(tier):
     for ai in range(len(ANCHORS)):
         for gs in ms.graph_slice("n3" if tier == "quick" else "n4e3"):
             yield {"gs": list(gs), "anchor": ai, "tier": tier}
+        # the metric is selected per MAP OBJECT: the same comparison with the SQLite backend, freshly built and reopened
+        if ai < 2:
+            for gs in ms.graph_slice("n3"):
+                if gs[0] == "GENERIC" and al.nedges(gs[2]) <= (2 if tier == "quick" else 6):
+                    yield {"gs": list(gs), "anchor": ai, "tier": tier, "backend": "sqlite"}
         # maps with a zero-length road (two co-located nodes, e.g. a doubled node of an OSM extract)
         for mask in al.masks(3, max_edges=3 if tier == "quick" else None):
             yield {"gs": ["ZERO", 3, mask], "anchor": ai, "tier": tier}
@@ -60,8 +65,20 @@ def run_case(case):
     g0 = ms.build_graph(tuple(case["gs"]))
     gp = {k: ((v[0][0] * UNIT, v[0][1] * UNIT), list(v[1])) for k, v in g0.items()}
     gl = {k: (to_ll(anchor, v[0]), list(v[1])) for k, v in gp.items()}
-    mpp = maps.inmem(gp, use_latlon=False)
-    mpl = maps.inmem(gl, use_latlon=True)
+    if case.get("backend") == "sqlite":
+        from leuvenmapmatching.map.sqlite import SqliteMap
+        import os as _os
+        m1 = maps.sqlite(gp, use_latlon=False, name="c15p")
+        m2 = maps.sqlite(gl, use_latlon=True, name="c15l")
+        d_ = maps.scratch()
+        maps.close(m1)
+        maps.close(m2)
+        # reopened from the file: the stored metric flag must select the metric again
+        mpp = SqliteMap.from_file(_os.path.join(d_, "c15p.sqlite"))
+        mpl = SqliteMap.from_file(_os.path.join(d_, "c15l.sqlite"))
+    else:
+        mpp = maps.inmem(gp, use_latlon=False)
+        mpl = maps.inmem(gl, use_latlon=True)
     obs = [(p[0] * UNIT, p[1] * UNIT) for p in al.OBS[pos][:4]]
     if "trace" in case:
         traces = [[tuple(p) for p in case["trace"]]]
@@ -73,6 +90,9 @@ def run_case(case):
         # exactly equal, so any rounding (in either metric) flips a finite penalty.  That discontinuity of the model is not
         # a property of the metric; GRID inputs are therefore run with the first-order model only (see DESIGN.md, C15).
         cfgs = [c for c in CFGS if pos == "GENERIC" or not c["avoid"]]
+        if case.get("backend") == "sqlite":
+            cfgs = [c for c in cfgs if c["fam"] != "SN" and not c["avoid"]]
+            traces = [t for t in traces if len(t) <= 2]
         if pos == "ZERO":
             traces = [t for t in traces if len(t) <= 2]
     for trace in traces:
@@ -92,6 +112,8 @@ def run_case(case):
             res["tv"] += 1
             a, b = r
             mini = {"gs": case["gs"], "anchor": case["anchor"], "trace": trace, "cfg": c}
+            if case.get("backend"):
+                mini["backend"] = case["backend"]
             where = f"{al.describe_graph(gp)} at anchor {anchor} trace {trace} cfg {c}"
             if a[0] == "EXC" or b[0] == "EXC" or a[0] != b[0]:
                 res["v"].append({"msg": f"{where}: planar (index, logprob) = {a}, latitude-longitude = {b}", "case": mini})
@@ -103,6 +125,8 @@ def run_case(case):
             elif (a[1] is None) != (b[1] is None):
                 res["v"].append({"msg": f"{where}: planar {a}, latitude-longitude {b}", "case": mini})
             outs.add((a[0], None if not isinstance(a[1], float) else round(a[1], 4)))
+    maps.close(mpp)
+    maps.close(mpl)
     res["out"] = sorted(outs, key=repr)[:1000]
     res["v"] = res["v"][:20]
     return res
